@@ -35,6 +35,16 @@ MaxMatchingSize(g) ==
         sizes == {Cardinality(M) : M \in {X \in SUBSET P : IsMatchingSet(X)}}
     IN CHOOSE k \in sizes : \A x \in sizes : x <= k
 
+\* Tutte-Berge: for ANY set U of nodes, no matching has more than (n + |U| - odd(G - U)) / 2 edges, where odd counts the
+\* components of G - U with an odd number of nodes.  A matching that meets the bound of the recorded U is therefore
+\* maximum - whatever produced U (the harness finds it by brute force; a bad U can only fail to certify).
+TBBound(g, U) ==
+    LET rest == Nodes(g) \ U
+        h == [n |-> g.n, dir |-> FALSE, E |-> SelectSeq(g.E, LAMBDA e : e[1] \in rest /\ e[2] \in rest /\ e[1] # e[2])]
+        comps == {WComp(h, v) \cap rest : v \in rest}
+        odd == Cardinality({c \in comps : Cardinality(c) % 2 = 1})
+    IN (g.n + Cardinality(U) - odd) \div 2
+
 \* flow record: s, t, value, edges = <<u, v, cap, flow>> for every edge of the network
 FlowOK(g, c) ==
     LET F == c.edges
@@ -58,7 +68,9 @@ Bad(r) ==
     chk("greedy", LAMBDA v : MatchingOK(g, v))
     \cup chk("maxm", LAMBDA v : MatchingOK(g, v))
     \* reported separately: a valid matching that is not of maximum size
-    \cup (IF Has(r, "maxm") /\ Ok(r.maxm) /\ MatchingOK(g, r.maxm[2]) /\ r.maxm[2].len # MaxMatchingSize(g) THEN {"maxm_size"} ELSE {})
+    \cup (IF Has(r, "maxm") /\ Ok(r.maxm) /\ MatchingOK(g, r.maxm[2])
+             /\ r.maxm[2].len # (IF Has(r, "tb_u") THEN TBBound(g, SeqRange(r.tb_u)) ELSE MaxMatchingSize(g))
+          THEN {"maxm_size"} ELSE {})
     \cup chk("greedy_nf", LAMBDA v : MatchingOKp(NFeven(g), v, FALSE))
     \cup chk("maxm_nf", LAMBDA v : MatchingOKp(NFeven(g), v, FALSE))
     \cup (IF Has(r, "maxm_nf") /\ Ok(r.maxm_nf) /\ MatchingOKp(NFeven(g), r.maxm_nf[2], FALSE) /\ r.maxm_nf[2].len # MaxMatchingSize(NFeven(g))
